@@ -241,6 +241,10 @@ def _fields(ctx, u, f):
                 nodes = g.nodes_for(call)
                 for fld, val in inner.items():
                     keyname = val if isinstance(val, str) else (list(val)[0] if isinstance(val, dict) and len(val) == 1 and list(val.values()) == [1] else None)
+                    if keyname not in hps and isinstance(val, dict) and not any(k_ in hps for k_ in val):
+                        # (the parameter is already keyed as what every caller passes for it)
+                        out[fld] = dict(val)
+                        continue
                     if keyname in hps and nodes:
                         arg = call_args(call)[hps.index(keyname)]
                         tmp = {}
